@@ -1,8 +1,9 @@
 /-
 Model of the peek/consume window of libarchive/archive_read.c
 (`__archive_read_filter_ahead`, `__archive_read_filter_consume`,
-`advance_file_pointer`, `client_skip_proxy`) for a single data node.
-Used by C01 (bounds, termination), C05 (partition independence) and
+`advance_file_pointer`, `client_skip_proxy`, `client_switch_proxy`,
+`client_seek_proxy`, `__archive_read_filter_seek`) over one or several data nodes.
+Used by C01 (bounds, termination), C05 (partition / source independence) and
 C08 (truncation / callback faults).
 
 Representation choices (all observable through the interface, none hides a C
@@ -21,6 +22,14 @@ behaviour):
   after the last node comes `term` forever (end of file or error).
 * the skip callback is a script `skips` of answers; each answer is consumed by
   one invocation; an exhausted script answers 0 ("cannot skip").
+* a seekable client (second half of this file) additionally has the full
+  contents of every data node (`nodes`), so that it can be positioned anywhere;
+  `src`/`later` are then always "what the client will deliver from where it
+  stands": the rest of the current node and the nodes behind it, cut into
+  blocks by `blk epoch node offset` (any function: the client may cut the same
+  bytes differently after every seek).  `client.cursor` is not stored: it is
+  `nodes.length - 1 - later.length`.  `begins`/`sizes` are
+  `client.dataset[i].begin_position/total_size` (-1 = not known yet).
 -/
 import LA.Model.Util
 namespace LA.RA
@@ -43,7 +52,18 @@ structure State where
   later : List (List (List Nat)) := []
   term : Term := .eof
   skips : List Int := []
-  deriving Repr
+  -- seekable client
+  canSeek : Bool := false          -- `filter->can_seek`
+  hasSeeker : Bool := false        -- `client.seeker != NULL`
+  noSkipper : Bool := false        -- `client.skipper == NULL` (then `skips` is not consulted)
+  nodes : List (List Nat) := []    -- contents of every data node
+  begins : List Int := []          -- `client.dataset[i].begin_position`
+  sizes : List Int := []           -- `client.dataset[i].total_size`
+  seeks : List Int := []           -- script of the seek callback's behaviour, one entry per invocation
+  epoch : Nat := 0                 -- number of successful seek callback invocations so far
+  blk : Nat → Nat → Nat → Nat := fun _ _ _ => 0   -- block size chosen by the client: epoch, node, offset
+  over : Nat := 0                  -- how far beyond the end of node `overNode` the client was positioned
+  overNode : Nat := 0
 
 inductive AheadR
   | window (w : List Nat) (fromCopy : Bool)   -- pointer returned, `*avail = w.length`
@@ -217,6 +237,87 @@ decreasing_by
   · simp_wf; apply Prod.Lex.right'; · simp
     simp [hs]
 
+/-! ### The seekable client -/
+
+inductive Whence | set | cur | end_ | other
+  deriving DecidableEq, Repr
+
+/-- Cut `bytes`, which start at offset `off` of a data node, into the blocks the read
+callback delivers: the block that starts at offset `o` has `max 1 (f o)` bytes, the last
+one what is left.  (`fuel` is `bytes.length`: every block takes at least one byte.) -/
+def chopFuel (f : Nat → Nat) : Nat → Nat → List Nat → List (List Nat)
+  | 0, _, _ => []
+  | fuel + 1, off, bytes =>
+    if bytes = [] then []
+    else
+      let k := Nat.max 1 (f off)
+      bytes.take k :: chopFuel f fuel (off + k) (bytes.drop k)
+
+def chop (f : Nat → Nat) (off : Nat) (bytes : List Nat) : List (List Nat) :=
+  chopFuel f bytes.length off bytes
+
+/-- The block scripts of the nodes `i, i+1, …`, each read from its start. -/
+def chopNodes (blk : Nat → Nat → Nat) : Nat → List (List Nat) → List (List (List Nat))
+  | _, [] => []
+  | i, n :: ns => chop (blk i) 0 n :: chopNodes blk (i + 1) ns
+
+def nodeAt (s : State) (c : Nat) : List Nat := (s.nodes[c]?).getD []
+
+/-- `client.cursor`. -/
+def cursor (s : State) : Nat := s.nodes.length - 1 - s.later.length
+
+/-- The client standing at offset `off` of node `c`, cutting blocks as in epoch `e`. -/
+def place (s : State) (e c off : Nat) : State :=
+  { s with epoch := e,
+           src := chop (s.blk e c) off ((nodeAt s c).drop off),
+           later := chopNodes (s.blk e) (c + 1) (s.nodes.drop (c + 1)),
+           over := off - (nodeAt s c).length, overNode := c }
+
+/-- `client_switch_proxy(filter, c)`: nothing if already there; else close the current
+node and open node `c`, which starts at its first byte (as `file_switch` of
+archive_read_open_filenames does).  The callbacks are taken to succeed. -/
+def switchTo (s : State) (c : Nat) : State :=
+  if cursor s = c then s else place s s.epoch c 0
+
+/-- Offset of the client in its current node. -/
+def filePos (s : State) : Nat :=
+  (nodeAt s (cursor s)).length - srcLen s.src +
+    (if s.overNode = cursor s ∧ s.src = [] then s.over else 0)
+
+/-- Where `lseek(offset, whence)` would put the client in its current node. -/
+def seekTarget (s : State) (w : Whence) (offset : Int) : Int :=
+  match w with
+  | .set => offset
+  | .cur => (filePos s : Int) + offset
+  | .end_ => ((nodeAt s (cursor s)).length : Int) + offset
+  | .other => -1
+
+/-- `client_seek_proxy(filter, offset, whence)` with a file-like seek callback (`lseek`):
+a negative resulting offset is refused (ARCHIVE_FATAL), an offset beyond the end is
+accepted.  Script entry of this invocation: `0` (or none left) = behave; `a < 0` = fail
+with code `a` and do not move; `a > 0` = on SEEK_SET land on the multiple of `a` below the
+requested offset and say so (a block-aligned seeker). -/
+def clientSeek (s : State) (w : Whence) (offset : Int) : Int × State :=
+  if !s.hasSeeker then (-25, s)     -- "Current client reader does not support seeking a device"
+  else
+    let ans := (s.seeks.head?).getD 0
+    let s1 := { s with seeks := s.seeks.tail }
+    if ans < 0 then (ans, s1)
+    else
+      let np := seekTarget s w offset
+      if np < 0 then (-30, s1)
+      else
+        let t := if ans > 0 ∧ w = .set then np.toNat - np.toNat % ans.toNat else np.toNat
+        ((t : Int), place s1 (s.epoch + 1) (cursor s) t)
+
+/-- The seeker branch of `client_skip_proxy` ("If the client provided a seeker but not a
+skipper, we can use the seeker to skip forward", only for requests over 64k). -/
+def seekSkip (s : State) (request : Nat) : Int × State :=
+  if s.hasSeeker ∧ request > 64 * 1024 then
+    let r := clientSeek s .cur request
+    if r.1 ≠ (s.position : Int) + request then (-30, r.2) else (request, r.2)   -- `after != before + request`
+  else (0, s)
+
 /-- "Use up the copy buffer first. Then use up the client buffer."  Returns the
 new state and the number of bytes taken from the two buffers. -/
 def useBuffers (s : State) (request : Nat) : State × Nat :=
@@ -233,7 +334,7 @@ def advance (s : State) (request : Nat) : Int × State :=
   if request = 0 then (total, s2) else
   -- If there's an optimized skip function, use it.
   let (r, s3) : Int × State :=
-    if s2.canSkip then skipLoop s2 request 0 s2.skips else (0, s2)
+    if s2.canSkip then (if s2.noSkipper then seekSkip s2 request else skipLoop s2 request 0 s2.skips) else (0, s2)
   if r < 0 then (r, { s3 with fatal := true }) else
   let k := r.toNat
   let s4 := { s3 with position := s3.position + k }
@@ -250,6 +351,140 @@ def consume (s : State) (request : Int) : Int × State :=
   else
     let (skipped, s') := advance s request.toNat
     if skipped = request then (skipped, s') else (-30, s')
+
+/-! ### `__archive_read_filter_seek` -/
+
+/-- Outcome of one of the node walks: the request failed, or the walk stands at node `c`. -/
+inductive Walk
+  | fail (r : Int) (s : State)
+  | at_ (c : Nat) (s : State)
+
+/-- Distinguished result for an index outside `client.dataset[]` (unreachable, see
+`seek_in_bounds`). -/
+def oob : Int := -99
+
+/-- `client->dataset[c].begin_position = b`. -/
+def setBegin (s : State) (c : Nat) (b : Int) : State := { s with begins := s.begins.set c b }
+
+/-- `client->dataset[c].total_size = z`. -/
+def setSize (s : State) (c : Nat) (z : Int) : State := { s with sizes := s.sizes.set c z }
+
+/-- The extra exit of the SEEK_SET walks: this node ends behind `offset`
+(`begin_position + total_size > offset`). -/
+def holds (stopAt : Option Int) (nodeEnd : Int) : Bool :=
+  match stopAt with
+  | some off => decide (nodeEnd > off)
+  | none => false
+
+/-- First `while (1)` of SEEK_SET and SEEK_END: pass over the nodes whose position and size
+are known already (`stopAt = some offset`: and that end at or before `offset`), noting where
+the next one begins.  `left` is `client.nodes - 1 - cursor`, so `left = 0` is the test
+`cursor + 1 >= client->nodes`. -/
+def walkKnown (stopAt : Option Int) : Nat → Nat → State → Walk
+  | 0, c, s => .at_ c s
+  | left + 1, c, s =>
+    match s.begins[c]?, s.sizes[c]? with
+    | some b, some sz =>
+      if b < 0 ∨ sz < 0 ∨ holds stopAt (b + sz) = true then .at_ c s
+      else if c + 1 < s.begins.length then
+        walkKnown stopAt left (c + 1) (setBegin s (c + 1) (b + sz))
+      else .fail oob s
+    | _, _ => .fail oob s
+
+/-- Second `while (1)`: switch to the node, ask the seek callback for its size
+(`client_seek_proxy(filter, 0, SEEK_END)`), record it, go on to the next node unless this
+one holds the offset or is the last. -/
+def walkProbe (stopAt : Option Int) : Nat → Nat → State → Walk
+  | left, c, s =>
+    let s1 := switchTo s c
+    let r := clientSeek s1 .end_ 0
+    if r.1 < 0 then .fail r.1 r.2
+    else
+      match r.2.begins[c]? with
+      | none => .fail oob r.2
+      | some b =>
+        if c < r.2.sizes.length then
+          let s3 := setSize r.2 c r.1
+          if holds stopAt (b + r.1) then .at_ c s3
+          else
+            match left with
+            | 0 => .at_ c s3
+            | left' + 1 =>
+              if c + 1 < s3.begins.length then
+                walkProbe stopAt left' (c + 1) (setBegin s3 (c + 1) (b + r.1))
+              else .fail oob s3
+        else .fail oob r.2
+termination_by structural left => left
+
+/-- Third `while (1)` of SEEK_END: from the last node back to the one that holds
+`r + offset`.  Result: cursor, `r`, `offset`. -/
+def walkBack (s : State) : Nat → Int → Int → Option (Nat × Int × Int)
+  | 0, r, offset => some (0, r, offset)
+  | c + 1, r, offset =>
+    match s.begins[c + 1]?, s.sizes[c + 1]?, s.begins[c]?, s.sizes[c]? with
+    | some b, some sz, some b', some sz' =>
+      if r + offset ≥ b then some (c + 1, r, offset)
+      else walkBack s c (b' + sz') (offset + sz)
+    | _, _, _, _ => none
+
+/-- The common tail: "Clearing the buffer like this hurts".  `client_total` and
+`client_next` are left as they are by the C; with `client_avail = 0` the position of
+`client_next` inside the old block can no longer be observed, the model moves it to the
+end of the block (keeping `cnext + cavail = client_total`). -/
+def finishSeek (s : State) (r : Int) : Int × State :=
+  if r ≥ 0 then
+    (r, { s with cb := [], next := 0, cavail := 0, cnext := s.cblk.length, position := r.toNat, eof := false })
+  else (r, s)
+
+/-- The last step of both branches: range check against the chosen node, then
+`client_seek_proxy(filter, offset, SEEK_SET)` and `r += begin_position`. -/
+def seekIn (s : State) (c : Nat) (off : Int) : Int × State :=
+  match s.begins[c]?, s.sizes[c]? with
+  | some b, some sz =>
+    if off < 0 ∨ off > sz then (-30, s)
+    else
+      let r := clientSeek (switchTo s c) .set off
+      if r.1 < 0 then r else finishSeek r.2 (r.1 + b)
+  | _, _ => (oob, s)
+
+def seekSet (s : State) (offset : Int) : Int × State :=
+  match walkKnown (some offset) (s.nodes.length - 1) 0 s with
+  | .fail r s1 => (r, s1)
+  | .at_ c s1 =>
+    match walkProbe (some offset) (s.nodes.length - 1 - c) c s1 with
+    | .fail r s2 => (r, s2)
+    | .at_ c s2 =>
+      match s2.begins[c]? with
+      | some b => seekIn s2 c (offset - b)
+      | none => (oob, s2)
+
+def seekEnd (s : State) (offset : Int) : Int × State :=
+  match walkKnown none (s.nodes.length - 1) 0 s with
+  | .fail r s1 => (r, s1)
+  | .at_ c s1 =>
+    match walkProbe none (s.nodes.length - 1 - c) c s1 with
+    | .fail r s2 => (r, s2)
+    | .at_ c s2 =>
+      match s2.begins[c]?, s2.sizes[c]? with
+      | some b, some sz =>
+        match walkBack s2 c (b + sz) offset with
+        | some (c', r, off) =>
+          match s2.begins[c']? with
+          | some b' => seekIn s2 c' ((r + off) - b')
+          | none => (oob, s2)
+        | none => (oob, s2)
+      | _, _ => (oob, s2)
+
+/-- `__archive_read_filter_seek(filter, offset, whence)`: the new position, or a negative
+status (ARCHIVE_FAILED = -25 when seeking is not possible, ARCHIVE_FATAL = -30). -/
+def seek (s : State) (offset : Int) (whence : Whence) : Int × State :=
+  if s.fatal then (-30, s)                 -- `filter->closed || filter->fatal`
+  else if !s.canSeek then (-25, s)
+  else match whence with
+    | .cur => seekSet s (offset + s.position)      -- "Adjust the offset and use SEEK_SET instead"
+    | .set => seekSet s offset
+    | .end_ => seekEnd s offset
+    | .other => (-30, s)
 
 /-- Bytes of the stream not yet consumed. -/
 def remaining (s : State) : List Nat :=
